@@ -372,6 +372,12 @@ func W(p unsafe.Pointer, size uintptr, site int32) {
 	}
 }
 
+// Wd is W for statement positions that admit no statement in front (see the weaver).
+func Wd(p unsafe.Pointer, size uintptr, site int32) struct{} {
+	W(p, size, site)
+	return struct{}{}
+}
+
 // R records a read.
 func R(p unsafe.Pointer, size uintptr, site int32) {
 	if s := S; s != nil {
